@@ -10,7 +10,7 @@ N = ["n"]
 
 INT_LITS = ["0", "1", "3", "5", "10", "11", "-1", "-5", "100", "2000000000"]
 HEX_LITS = ["0x0", "0x1", "0x1F", "0x20", "0x21", "0xff", "0X1f", "1f", "20", "0x10", "0xFF"]
-STR_LITS = ["", "x", "a b", 'q"z', "a\\b", "#c", "zz", "5"]
+STR_LITS = ["", "x", "a b", 'q"z', "a\\b", "#c", "zz", "5", "n", "y"]
 FLOAT_LITS = ["0.0", "5", "5.0", "1e3", "-0.5", ".5", "2.5", "10.0", "100.5", "1.5", "3.25", "7", "2.5e16", "1e-7"]
 
 
@@ -97,6 +97,9 @@ def atom_text(a, as_string=False):
     return q(lit)
 
 
+MIN_PARENS = [False]  # lexical variant of C04: `!A = B` for !(A = B) (a relation binds tighter than `!`)
+
+
 def expr_text(e, top=True):
     op = e[0]
     if op in ("y", "n"):
@@ -106,6 +109,8 @@ def expr_text(e, top=True):
     if op == "c":
         return q(e[1])
     if op == "!":
+        if MIN_PARENS[0] and e[1][0] in ("=", "!=", "<", "<=", ">", ">="):
+            return "!" + expr_text(e[1], True)
         return "!" + expr_text(e[1], False)
     if op in ("&&", "||"):
         # minimal parentheses: && binds tighter than ||; a same-operator chain on the left needs none
@@ -491,7 +496,7 @@ def user_candidates(prog, rng, cap=1500):
         elif t == "hex":
             c = [NOVAL] + rng.sample(["0x0", "0x1F", "0x20", "1f", "0X1f", "0xff"], 2)
         else:
-            c = [NOVAL] + rng.sample(["", "x", 'q"z', "a\\b"], 2)
+            c = [NOVAL] + rng.sample(["", "x", 'q"z', "a\\b", "n", "y"], 2)  # "n" / "y": strings that look like bool values
         vars_.append({"n": n, "kind": "sym", "cands": c})
     for cid in choice_ids(prog):
         vars_.append({"n": cid, "kind": "choice", "cands": [NOVAL] + members(prog, cid)})
@@ -533,18 +538,38 @@ def generate(seed, n_programs, n_opts=6):
 
 
 # ------------------------------------------------------------------ lexical variants (C04)
+def _and_parts(e):
+    return _and_parts(e[1]) + _and_parts(e[2]) if e[0] == "&&" else [e]
+
+
+def _dep_lines(kw, e, style):
+    """`depends on A && B` may be written as two lines (their conjunction, in this order)."""
+    if style.get("split_and") and e[0] == "&&":
+        return ["%s %s" % (kw, expr_text(x)) for x in _and_parts(e)]
+    return ["%s %s" % (kw, expr_text(e))]
+
+
+ODD_TITLES = [" %s prompt", "%s  two  spaces", "%s if prompt", "%s c# prompt", "%s's \\\"q\\\" prompt"]
+
+
+def _title(name, style, rng):
+    if style.get("odd_text"):
+        return rng.choice(ODD_TITLES) % name
+    return "%s prompt" % name
+
+
 def _config_lines(e, style, rng):
     """Property lines of a config entry (without indentation); the type line comes first."""
     first = []
     rest = []
     if e["prompt"] and not style.get("separate_prompt"):
-        first.append('%s "%s prompt"%s' % (e["type"], e["name"], cond_suffix(e["prompt"][0])))
+        first.append('%s "%s"%s' % (e["type"], _title(e["name"], style, rng), cond_suffix(e["prompt"][0])))
     else:
         first.append(e["type"])
         if e["prompt"]:
-            rest.append('prompt "%s prompt"%s' % (e["name"], cond_suffix(e["prompt"][0])))
+            rest.append('prompt "%s"%s' % (_title(e["name"], style, rng), cond_suffix(e["prompt"][0])))
     if not is_y(e["dep"]):
-        rest.append("depends on %s" % expr_text(e["dep"]))
+        rest.append(_dep_lines("depends on", e["dep"], style))
     rl = []
     for r in e["ranges"]:
         rl.append("range %s %s%s" % (atom_text(r["lo"]), atom_text(r["hi"]), cond_suffix(r["c"])))
@@ -666,6 +691,8 @@ def _render_styled(entries, ind, out, style, rng, in_choice=False):
             if style.get("help"):
                 out.append(pad + unit + "help")
                 out.append(pad + unit + unit + "Help for %s." % e["name"])
+                if style.get("odd_text"):
+                    out.append(pad + unit + unit + "Use C# here, if you must  (two spaces, a # sign, \"quotes\").")
                 out.append("")
                 out.append(pad + unit + unit + unit + "deeper indented line")
                 out.append(pad + unit + unit + "last help line")
@@ -674,13 +701,14 @@ def _render_styled(entries, ind, out, style, rng, in_choice=False):
             out.append('%smenu "%s"' % (pad, e.get("title", "menu")))
             props = []
             if not is_y(e["dep"]):
-                props.append("depends on %s" % expr_text(e["dep"]))
+                props.append(_dep_lines("depends on", e["dep"], style))
             if not is_y(e["visif"]):
-                props.append("visible if %s" % expr_text(e["visif"]))
+                props.append(_dep_lines("visible if", e["visif"], style))
             if style.get("shuffle"):
                 rng.shuffle(props)
-            for ln in props:
-                _emit(out, pad + unit, ln, style, rng)
+            for x in props:
+                for ln in x:
+                    _emit(out, pad + unit, ln, style, rng)
             out.append("")
             _render_styled(e["children"], ind + 1, out, style, rng, in_choice=in_choice)
             out.append("%sendmenu" % pad)
@@ -698,7 +726,7 @@ def _render_styled(entries, ind, out, style, rng, in_choice=False):
             if e["prompt"]:
                 props.append('prompt "%s prompt"%s' % (e.get("title", "choice"), cond_suffix(e["prompt"][0])))
             if not is_y(e["dep"]):
-                props.append("depends on %s" % expr_text(e["dep"]))
+                props.append(_dep_lines("depends on", e["dep"], style))
             dl = ["default %s%s" % (d["m"], cond_suffix(d["c"])) for d in e["defaults"]]
             props.append(dl)
             if style.get("shuffle"):
@@ -728,6 +756,9 @@ STYLES = {
     "help": {"help": True},
     "tabs": {"tabs": True},
     "rsource": {"rsource": True},
+    "split-and": {"split_and": True, "shuffle": True},
+    "min-parens": {"min_parens": True},
+    "odd-text": {"odd_text": True, "help": True},
     "macros": {"macros": True},
     "macros+rsource": {"macros": True, "rsource": True, "comments": True},
     "everything": {"separate_prompt": True, "shuffle": True, "comments": True, "continuation": True, "help": True, "rsource": True},
@@ -737,6 +768,14 @@ STYLES = {
 def render_styled(prog, style_name, rng, title="verif"):
     """(main text, {extra file name: text}) of one lexical variant of the program."""
     style = STYLES[style_name]
+    MIN_PARENS[0] = bool(style.get("min_parens"))
+    try:
+        return _render_styled_top(prog, style, rng, title)
+    finally:
+        MIN_PARENS[0] = False
+
+
+def _render_styled_top(prog, style, rng, title):
     extra = {}
     main_entries = prog
     out = ['mainmenu "%s"' % title, ""]
